@@ -1043,6 +1043,11 @@ func deepSlice(n int) interface{} {
 }
 
 var fixedHost = map[string]func() (v interface{}, wantErr bool){
+	// distinct Go keys that are one number as doubles: a faithful conversion does not exist
+	"colliding-int64-keys": func() (interface{}, bool) { return map[int64]string{1 << 53: "a", 1<<53 + 1: "b"}, true },
+	"colliding-uint64-keys": func() (interface{}, bool) {
+		return struct{ M map[uint64]bool }{map[uint64]bool{1<<63 + 1: true, 1 << 63: false, 7: true}}, true
+	},
 	"nil":                     func() (interface{}, bool) { return nil, true },
 	"typed-nil-pointer":       func() (interface{}, bool) { return (*int)(nil), true },
 	"typed-nil-struct-ptr":    func() (interface{}, bool) { return (*recNode)(nil), true },
